@@ -185,6 +185,29 @@ Proof. destruct s; [congruence|reflexivity]. Qed.
 Lemma head_forall p s : str_forall p s = true -> s <> "" -> head_sat p s = true.
 Proof. destruct s as [|c s]; [congruence|]. cbn. intros H _. apply andb_prop in H. now destruct H. Qed.
 
+Lemma second_field_card name g1 mat rest :
+  str_forall nonblank name = true -> name <> "" -> str_forall nonblank mat = true -> mat <> "" ->
+  head_sat nonblank rest = false ->
+  second_field (name ++ blanks (S g1) ++ mat ++ rest) = mat.
+Proof.
+  intros Fn Nn Fm Nm Hr. unfold second_field.
+  rewrite (skip_blanks_nonblank_head (name ++ _)) by (rewrite head_sat_app by assumption; now apply head_forall).
+  rewrite (span_while_app nonblank name _ Fn) by reflexivity. cbn [snd].
+  rewrite skip_blanks_blanks.
+  rewrite (skip_blanks_nonblank_head (mat ++ rest)) by (rewrite head_sat_app by assumption; now apply head_forall).
+  now rewrite (span_while_app nonblank mat rest Fm Hr).
+Qed.
+
+Lemma mat_class_digits mat : digits_ok mat = true -> mat_class mat = Some (all_zero mat).
+Proof.
+  intros H. destruct (digits_ok_inv mat H) as (Ha & c & r & E & Hc).
+  unfold mat_class.
+  assert (Hss : strip_sign mat = mat).
+  { rewrite E. cbn. destruct (digit_not_punct c Hc) as (_ & _ & _ & _ & _ & P5 & P6 & _). now rewrite P5, P6. }
+  rewrite Hss. rewrite <- (str_app_nil_r mat) at 1. rewrite all_digits_forall in Ha.
+  rewrite (span_while_app is_digit mat "" Ha eq_refl). rewrite E. reflexivity.
+Qed.
+
 Theorem split_card_wellformed name g1 mat rho g3 E opts :
   digits_ok name = true -> mat_ok mat rho ->
   str_forall expr_char E = true -> head_sat nonblank E = true -> sep_ok rho g3 E -> opts_ok E opts ->
@@ -247,6 +270,9 @@ Proof.
   { apply (str_forall_impl is_digit); [|exact Fname]. intros c Hc. now destruct (digit_facts c Hc) as (_ & ? & _). }
   assert (Fnb_mat : str_forall nonblank mat = true).
   { apply (str_forall_impl is_digit); [|exact Fmat]. intros c Hc. now destruct (digit_facts c Hc) as (_ & ? & _). }
+  assert (HR2ne : R2 <> "").
+  { unfold R2, G. destruct rho as [[g2 r]|]; [discriminate|]. cbn [rho_text append].
+    destruct g3; [|discriminate]. exact ENe. }
   unfold split_card.
   (* three fields *)
   assert (Hfields : fields 3 (card_body name g1 mat rho g3 E ++ opts) = 3).
@@ -262,11 +288,11 @@ Proof.
       + cbn [append]. unfold G. rewrite ?str_app_assoc, skip_blanks_blanks.
         destruct E as [|c E']; [congruence|]. cbn in HEhd. unfold nonblank in HEhd. apply negb_true_iff in HEhd.
         cbn [append skip_blanks]. rewrite HEhd. reflexivity.
-    - assert (HR2ne : R2 <> "").
-      { unfold R2, G. destruct rho as [[g2 r]|]; [discriminate|]. cbn [rho_text append].
-        destruct g3; [|discriminate]. exact ENe. }
-      rewrite head_sat_app by exact HR2ne. exact HR2hd. }
-  rewrite Hfields. cbn [Nat.ltb Nat.leb]. rewrite Hfind. rewrite Hbody.
+    - rewrite head_sat_app by exact HR2ne. exact HR2hd. }
+  assert (Hsf : second_field (card_body name g1 mat rho g3 E ++ opts) = mat).
+  { rewrite Hbody, ?str_app_assoc. apply second_field_card; auto.
+    rewrite head_sat_app by exact HR2ne. exact HR2hd. }
+  rewrite Hfields. cbn [Nat.ltb Nat.leb]. rewrite Hsf, (mat_class_digits mat Hmat). rewrite Hfind. rewrite Hbody.
   rewrite (skip_blanks_nonblank_head (name ++ _)) by (rewrite head_sat_app by assumption; now apply head_forall).
   rewrite <- all_digits_forall in Fname.
   rewrite (span_digits_app name _ 0%N 0 Fname) by reflexivity.
@@ -278,15 +304,12 @@ Proof.
   rewrite (skip_blanks_nonblank_head (mat ++ R2)) by (rewrite head_sat_app by assumption; now apply head_forall).
   rewrite (span_while_app nonblank mat R2 Fnb_mat HR2hd).
   destruct mat as [|cm mat'] eqn:Emat; [congruence|]. rewrite <- Emat in *.
-  assert (Hmat_digits : all_digits mat = true) by (rewrite all_digits_forall; exact Fmat).
   replace (match mat with "" => Err EIndex | String _ _ => _ end) with
-    (if negb (all_digits mat) then Err EValue
-     else if all_zero mat then Ok (R2, opts)
+    (if all_zero mat then Ok (R2, opts)
      else if negb (blank_head R2) then Err EIndex
      else let '(rho0, s3) := span_while density_char (skip_blanks R2) in
           match rho0 with "" => Err EIndex | String _ _ => Ok (s3, opts) end)
     by (rewrite Emat; reflexivity).
-  rewrite Hmat_digits. cbn [negb].
   destruct rho as [[g2 r]|].
   - destruct Hrho as (Hz & Hr & Hrne & _). rewrite Hz.
     unfold R2. cbn [rho_text]. rewrite ?str_app_assoc. cbn [blank_head blanks append negb].
